@@ -58,6 +58,10 @@ var sampleVals = []ref.Val{
 	ref.Bytes("hello world"),
 	ref.Str("text"),
 	ref.Map(),
+	// every kind in one value, a bytes node long enough to be mistaken for scratch space right before a
+	// link (encoders handle both through one token)
+	ref.List(ref.Bytes(strings.Repeat("0123456789abcdef", 3)), ref.Link(ref.LinksFull()[1]), ref.Float(1.5), ref.Null(), ref.Bool(true),
+		ref.Map(ref.E("y", ref.Bytes(strings.Repeat("fedcba9876543210", 4))), ref.E("z", ref.Link(ref.LinksFull()[0])))),
 }
 
 func routedWorld(v ref.Val, routes ref.Routes, reuse bool) func() *world {
